@@ -145,6 +145,11 @@ class ExprMixin:
         self.rules['temporary-for-reference-arg'] += 1
         return '&' + tn
 
+    def obj_type(self, node):
+        """type of the object expression itself (implicit derived-to-base casts of the object argument stripped)"""
+        try: return self.tyq(self.skip(node)['type'])
+        except Unsupported: return self.tyq(node['type'])
+
     def etype(self, node):
         """C-side type of an expression; honours per-variable container overrides (unit 'local_caps')"""
         c = self.skip(node)
@@ -353,7 +358,15 @@ class ExprMixin:
 
     def e_MemberExpr(self, n):
         base = n['inner'][0]
-        bt = self.tyq(base['type'])
+        bt = None
+        cb0 = self.skip(base)
+        if cb0.get('kind') == 'CXXOperatorCallExpr' and len(cb0.get('inner', [])) == 2:
+            try:
+                r0 = self.callee_decl(cb0)[1]
+                if r0.get('name') == 'operator->' and self.obj_type(cb0['inner'][1]).kind == 'ptr':
+                    bt = self.obj_type(cb0['inner'][1])      # smart pointer mapped to a pointer (typemap)
+            except Unsupported: pass
+        if bt is None: bt = self.tyq(base['type'])
         name = n['name']
         # static data member through object
         rid = n.get('referencedMemberDecl')
@@ -565,6 +578,11 @@ class ExprMixin:
             self.autostubs.setdefault(cn, '%s %s(%s);' % (t.c, cn, ', '.join(ptxt) or 'void'))
             self.fninfo.setdefault(cn, {'qname': t.c + '::ctor', 'stub': True})
             return '%s(%s)' % (cn, ', '.join(atxt))
+        if t.kind == 'ptr':
+            a2 = [a for a in args if a.get('kind') != 'CXXDefaultArgExpr']
+            if not a2 or (len(a2) == 1 and self.skip(a2[0]).get('kind') == 'CXXNullPtrLiteralExpr'):
+                return '((%s)0)' % t.c          # empty smart pointer (mapped to a plain pointer)
+            if len(a2) == 1: return self.expr(a2[0], rvalue=True)
         raise Unsupported('construction of %s (%s) at %s' % (t.c, t.kind, self.where(n)))
 
     def flatten_init(self, args):
@@ -756,6 +774,13 @@ class ExprMixin:
         d, r = self.callee_decl(n)
         args = n['inner'][1:]
         name = r.get('name', '')
+        if name in ('operator->', 'operator*') and len(args) == 1 and self.obj_type(args[0]).kind == 'ptr':
+            # smart pointer mapped to a plain pointer by the unit description (typemap): ownership is not modelled
+            self.rules['smart-pointer-as-pointer'] += 1
+            o = self.expr(args[0])
+            return o if name == 'operator->' else '(*%s)' % o
+        if name == 'operator=' and len(args) == 2 and self.obj_type(args[0]).kind == 'ptr':
+            return '(%s = %s)' % (self.expr(args[0]), self.expr(args[1], rvalue=True))
         if name == 'operator=' and d is not None and (d.get('isImplicit') or d.get('explicitlyDefaulted')):
             # implicit / defaulted copy or move assignment of a record = C struct assignment
             self.rules['implicit-assignment-as-struct-copy'] += 1
